@@ -120,4 +120,10 @@ Section C11.
     In v (requested_names g nn) -> In v (get_all_node_names g) ->
     exists c, lookup teqb v m = Some c /\ (c == cc teqb (get_all_node_names g) (nadj teqb g) v)%Q.
   Proof. intros g nn m v Hok. exact (clustering_eq_def teqb teqb_spec g Hok nn m v). Qed.
+  (* transitivity = 3 x (number of triangles) / (number of connected triples), as a rational *)
+  Theorem C11_transitivity_eq_def : forall (g : gstate) q,
+    nbr_ok_b teqb g = true ->
+    transitivity teqb g = Ok q ->
+    (q == transitivity_def teqb (get_all_node_names g) (nadj teqb g))%Q.
+  Proof. intros g q Hok. exact (transitivity_eq_def teqb teqb_spec g Hok q). Qed.
 End C11.
